@@ -339,6 +339,55 @@ mod codecs {
         member_roundtrip(crate::BincodeCodec(bincode::config::standard()));
     }
 
+    /// the same round trip, split by the width of bincode's variable-length integers (one byte below 251, marker + 2 bytes above)
+    fn member_roundtrip_split<C: Codec<u16>>(mut codec: C, wide_id: bool, wide_inc: bool) {
+        let (id, inc) = (kani::any::<u16>(), kani::any::<u16>());
+        kani::assume((id >= 251) == wide_id);
+        kani::assume((inc >= 251) == wide_inc);
+        let m = Member::new(id, inc, any_state());
+        let mut buf = [0u8; 12];
+        let n = {
+            let mut w = &mut buf[..];
+            assert!(codec.encode_member(&m, &mut w).is_ok());
+            12 - w.remaining_mut()
+        };
+        assert!(n >= 1 && n <= 8);
+        buf[n] = kani::any::<u8>();
+        let mut rd = &buf[..n + 1];
+        let back = codec.decode_member(&mut rd);
+        assert!(back.is_ok());
+        assert!(back.unwrap() == m);
+        assert!(rd.len() == 1);
+    }
+
+    #[cfg(feature = "bincode-codec")]
+    #[kani::proof]
+    #[kani::unwind(12)]
+    fn c20_bincode_member_nn() {
+        member_roundtrip_split(crate::BincodeCodec(bincode::config::standard()), false, false);
+    }
+
+    #[cfg(feature = "bincode-codec")]
+    #[kani::proof]
+    #[kani::unwind(12)]
+    fn c20_bincode_member_wn() {
+        member_roundtrip_split(crate::BincodeCodec(bincode::config::standard()), true, false);
+    }
+
+    #[cfg(feature = "bincode-codec")]
+    #[kani::proof]
+    #[kani::unwind(12)]
+    fn c20_bincode_member_nw() {
+        member_roundtrip_split(crate::BincodeCodec(bincode::config::standard()), false, true);
+    }
+
+    #[cfg(feature = "bincode-codec")]
+    #[kani::proof]
+    #[kani::unwind(12)]
+    fn c20_bincode_member_ww() {
+        member_roundtrip_split(crate::BincodeCodec(bincode::config::standard()), true, true);
+    }
+
     #[cfg(feature = "bincode-codec")]
     #[kani::proof]
     #[kani::unwind(12)]
